@@ -33,9 +33,10 @@ def is_parameter_encryption(
     """Return if we have to do parameter encryption for command (or response if for_response=True)."""
     assert command is None or authorizationArea is None
     if command is not None:
-        if command.authorizationArea is None:
-            return False
         authorizationArea = command.authorizationArea
+    if authorizationArea is None:
+        # no session area (or one which was abandoned after a size constraint violation)
+        return False
     if for_response:
         return any(
             authorizationArea.sessionAttributes.encrypt
